@@ -163,3 +163,7 @@ mod tests {
         assert_eq!(result.ok_val(), Some(json!("Hello")));
     }
 }
+
+#[cfg(kani)]
+#[path = "/verif/kani/comparable.rs"]
+mod verif_kani;
